@@ -214,6 +214,40 @@ func f(closed <-chan struct{}, cancelled <-chan struct{}) {
 }
 func g() {}`, wantFail: true},
 
+	{name: "timer_made_once_never_rearmed", src: `package p
+import "time"
+type S struct{ closed chan struct{} }
+func (s *S) sweep() {
+	timer := time.NewTimer(time.Minute)
+	defer timer.Stop()
+	for {
+		select {
+		case <-s.closed:
+			return
+		case <-timer.C:
+			g()
+		}
+	}
+}
+func g() {}`, wantTerms: [][]string{{"s.closed/Return", "oneshot:timer.C/Fall"}}, wantSees: []bool{true}, wantDef: []bool{false}, wantOK: []bool{false}},
+
+	{name: "timer_rearmed_and_ticker_are_periodic", src: `package p
+import "time"
+func f(closed <-chan struct{}) {
+	timer := time.NewTimer(time.Minute)
+	ticker := time.NewTicker(time.Second)
+	for {
+		select {
+		case <-closed:
+			return
+		case <-timer.C:
+			timer.Reset(time.Minute)
+		case <-ticker.C:
+		case <-time.After(time.Second):
+		}
+	}
+}`, wantTerms: [][]string{{"closed/Return", "timer.C/Fall", "ticker.C/Fall", "time.After(time.Second)/Fall"}}, wantSees: []bool{true}, wantDef: []bool{false}, wantOK: []bool{true}},
+
 	{name: "refuse_goto", src: `package p
 func f(closed <-chan struct{}) {
 L:
